@@ -323,7 +323,7 @@ func (r *inFlightRequest) stopTimeout() {
 	}
 }
 
-func (r inFlightRequest) resetTimeout() {
+func (r *inFlightRequest) resetTimeout() {
 	r.stopTimeout()
 	r.startTimeout()
 }
